@@ -136,9 +136,12 @@ func (p *ctxProxy) ProcessSshdLogEntry(ctx context.Context, sm sshd.SshdLogEntry
 // sharedMetrics: one metrics provider (and registry) kept across `left` more lines, so that the
 // counters are read before and after each line of a sequence, as in one daemon run
 type sharedMetrics struct {
-	reg  *prometheus.Registry
-	mp   *metrics.PrometheusMetricsProvider
-	left int
+	reg    *prometheus.Registry
+	mp     *metrics.PrometheusMetricsProvider
+	left   int
+	proc   sshd.SshdProcessor // one processor for the whole batch, as in one daemon run
+	log    *effectLog
+	logins chan common.RemoteUserLogin
 }
 
 var shared sharedMetrics
@@ -171,13 +174,21 @@ func runSshd(pid, msg, framed string, writeOK bool, handoff string, via string) 
 		shared.reg = prometheus.NewRegistry()
 		shared.mp = metrics.NewPrometheusMetricsProviderForRegisterer(shared.reg)
 		shared.left = sshdBatch
+		// the processor lives as long as the batch (its own context is never cancelled; the context of
+		// each call is what the hand-off selects on)
+		shared.log = &effectLog{}
+		shared.logins = make(chan common.RemoteUserLogin)
+		shared.proc = sshd.NewSshdProcessor(context.Background(), shared.logins, nodeName, machineID,
+			auditevent.NewAuditEventWriter(shared.log), shared.mp)
 	}
 	shared.left--
-	reg, mp := shared.reg, shared.mp
+	reg := shared.reg
 	incsBefore := gatherIncs(reg)
-	log := &effectLog{failAll: !writeOK}
-	ew := auditevent.NewAuditEventWriter(log)
-	logins := make(chan common.RemoteUserLogin)
+	log := shared.log
+	log.mu.Lock()
+	log.effs, log.last, log.flags, log.failAll = nil, nil, nil, !writeOK
+	log.mu.Unlock()
+	logins := shared.logins
 	ctx, cancel := context.WithCancel(context.Background())
 	defer cancel()
 	var wg sync.WaitGroup
@@ -204,7 +215,7 @@ func runSshd(pid, msg, framed string, writeOK bool, handoff string, via string) 
 	} else {
 		cancel()
 	}
-	proc := sshd.NewSshdProcessor(ctx, logins, nodeName, machineID, ew, mp)
+	proc := shared.proc
 	res := "R:nil"
 	before := time.Now()
 	func() {
